@@ -212,6 +212,17 @@ def check_spec(ctx, spec, cls=None):
                 c['X', key] = np.array(want, dtype=float) + 0.5
                 if [c.X[i] for i in want] != [w + 0.5 for w in want]:
                     ctx.violation('slice-set', f'{kind}: array assignment through the label slice stored {[c.X[i] for i in want]}', dict(case, op='set-slice-array'))
+                # ... and a Python sequence with one value per addressed period (list, tuple, range)
+                for seq in ([w + 0.25 for w in want], tuple(w + 0.75 for w in want), range(500, 500 + len(want))):
+                    try:
+                        c['X', key] = seq
+                    except Exception as e:
+                        ctx.violation('slice-set', f'{kind}: obj["X", {la!r}:{lb!r}:{step}] = <{type(seq).__name__} of {len(want)} values for the {len(want)} addressed periods> raised {type(e).__name__}: {e}', dict(case, op='set-slice-sequence'))
+                        break
+                    ctx.count('slice_writes')
+                    if [c.X[i] for i in want] != [float(v) for v in seq]:
+                        ctx.violation('slice-set', f'{kind}: {type(seq).__name__} assignment through the label slice stored {[c.X[i] for i in want]}, expected {list(seq)}', dict(case, op='set-slice-sequence'))
+                        break
     # ---- write through one path, read through every other --------------------------------
     for i in range(n):
         lab = spec.labels[i][0]
